@@ -44,6 +44,8 @@ def vc_exprs(eng, ob, mode="prove"):
     ax = list(eng.prelude_axioms) if (ob.use_axioms and not ob.reveal) else []
     goal, sks = skolemize_goal(goal)
     inst = instantiate_at(hyps, sks) if sks else []
+    if ob.use_axioms and not ob.reveal:
+        for f in getattr(eng, "instantiators", []): inst += f(hyps + [goal])      # lemmas are called, not only triggered
     return ax + hyps + inst + [z3.Not(goal)]
 
 def skolemize_goal(goal):
